@@ -117,6 +117,14 @@ def tokenize(t):
                 toks.append(Tok("p", "+="))
                 i += 2
                 continue
+            if s[i:i + 2] in ("<=", ">=", "==", "!="):
+                toks.append(Tok("rel", s[i:i + 2]))
+                i += 2
+                continue
+            if ch in "<>":
+                toks.append(Tok("rel", ch))
+                i += 1
+                continue
             if ch in "(){}[];=+-*,":
                 toks.append(Tok("p", ch))
                 i += 1
@@ -158,6 +166,7 @@ class CResult:
         self.pointer_decls = []
         self.locals = {}
         self.text = None
+        self.early = []  # guarded early returns `if (a rel b) return e;` met before the final return: (condition, value)
 
 
 class _P:
@@ -369,13 +378,34 @@ class _P:
             self.i += 1
             self.res.locals[("offset",)] = ("int", t.val.value)
             return
+        if t.kind == "id" and t.val == ("if",):
+            # the one conditional form understood: `if (<int expr> <rel> <int expr>) return <expr>;` -- a guarded early return
+            self.i += 1
+            self.eat("(")
+            a = self.as_int(self.expr())
+            r = self.peek()
+            if r is None or r.kind != "rel":
+                raise Unsupported("mini-C: condition of `if` is not a comparison")
+            self.i += 1
+            b = self.as_int(self.expr())
+            self.eat(")")
+            k = self.peek()
+            if not (k is not None and k.kind == "id" and k.val == ("return",)):
+                raise Unsupported("mini-C: `if` controlling something other than a return")
+            self.i += 1
+            v = self.expr()
+            self.eat(";")
+            a_, b_ = (z3.IntVal(a) if isinstance(a, int) else a), (z3.IntVal(b) if isinstance(b, int) else b)
+            cond = {"<": a_ < b_, "<=": a_ <= b_, ">": a_ > b_, ">=": a_ >= b_, "==": a_ == b_, "!=": a_ != b_}[r.val]
+            self.res.early.append((cond, v))
+            return
         if t.kind == "id" and t.val == ("return",):
             self.i += 1
             if self.isp(";"):
                 self.i += 1
                 self.res.ret = ("void",)
                 return "return"
-            self.res.ret = self.expr()
+            self.res.ret = self._fold_early(self.expr())
             self.eat(";")
             return "return"
         # find the end of the statement and the top-level assignment operator
@@ -445,6 +475,19 @@ class _P:
         v = self.expr()
         self.eat(";")
         self.res.stores.append((lv[1], lv[2], v))
+
+    def _fold_early(self, ret):
+        """the value returned = the first guarded early return whose condition holds, else the final one; understood when the values
+        are integers (or a null pointer constant against a pointer): the address / value becomes an if-then-else term"""
+        for cond, v in reversed(self.res.early):
+            if ret[0] == "ptr" and v[0] == "int":
+                ret = ("ptr", z3.If(cond, self.as_int(v) if not isinstance(self.as_int(v), int) else z3.IntVal(self.as_int(v)), ret[1]), ret[2])
+            elif ret[0] == "int" and v[0] == "int":
+                x, y = self.as_int(v), self.as_int(ret)
+                ret = ("int", z3.If(cond, z3.IntVal(x) if isinstance(x, int) else x, z3.IntVal(y) if isinstance(y, int) else y))
+            else:
+                raise Unsupported("mini-C: guarded early return of a value of another kind than the final one")
+        return ret
 
     def block(self):
         while self.peek() is not None and not self.isp("}"):
